@@ -131,7 +131,7 @@ class MessageIdNew(Obligation):
 
 def obligations(ctx, cfg):
     q = cfg['tier'] == 'quick'
-    ns, k = (2, 2) if q else (3, 3)
+    ns, k = (2, 2) if q else (3, 4)
     return [MessageIdNew(), PublishStep(ctx, ns, k),
             StepPost(ctx, 1, 3 if q else 4, k, 'fifo', 'C08.c-post'),
             StepPull(ctx, 1, 3 if q else 4, 0, 'fifo', 'C08.c-pull'),
